@@ -1098,7 +1098,17 @@ pub fn special_case_builtin(
                 .and_then(|generics| generics.first().cloned())
                 .expect("mk_cons should have (exactly) one type parameter");
 
-            if let [head, tail] = &args[..] {
+            // Used as a value rather than called (e.g. passed to a higher-order function): wrap
+            // the call in a lambda taking both arguments, like the other special-cased builtins.
+            if count == 0 {
+                assert!(args.is_empty());
+
+                for arg_index in 0..func.arity() {
+                    args.push(Term::var(format!("__item_index_{arg_index}")));
+                }
+            }
+
+            let mut term = if let [head, tail] = &args[..] {
                 Term::mk_cons()
                     .apply(if arg_type.is_pair() {
                         head.clone()
@@ -1108,7 +1118,15 @@ pub fn special_case_builtin(
                     .apply(tail.clone())
             } else {
                 unreachable!("mk_cons has two arguments.");
+            };
+
+            if count == 0 {
+                for arg_index in (0..func.arity()).rev() {
+                    term = term.lambda(format!("__item_index_{arg_index}"));
+                }
             }
+
+            term
         }
 
         DefaultFunction::ChooseUnit
